@@ -31,6 +31,7 @@ var propC12 = parserProp{
 		o.ntl = 35
 		o.maxOps = 20
 		o.ntlPair = 8
+		o.suffixPct = 30
 		return o
 	},
 	tweak: nil,
